@@ -27,6 +27,7 @@ type c06Scenario struct {
 	Name      string
 	Producers [][]int
 	FailS3    bool
+	Delay     bool // delay bounding for the larger concurrent history
 }
 
 func c06Scenarios() []c06Scenario {
@@ -38,7 +39,7 @@ func c06Scenarios() []c06Scenario {
 	if vh.Thorough() {
 		sc = append(sc,
 			c06Scenario{Name: "1p-4req", Producers: [][]int{{1, 2, 1, 1}}, FailS3: true},
-			c06Scenario{Name: "2p-2req", Producers: [][]int{{1, 1}, {2, 1}}, FailS3: true},
+			c06Scenario{Name: "2p-2req", Producers: [][]int{{1, 1}, {2, 1}}, FailS3: true, Delay: true},
 		)
 	}
 	return sc
@@ -232,7 +233,7 @@ func TestVerifC06(t *testing.T) {
 			}
 			continue
 		}
-		st := sched.Explore(t, sched.Config{MaxPreempt: P, MaxDev: D, Deadline: deadline, Shard: shard, NShards: n}, c06Body(sc, false), func(x *sched.Exec) {
+		st := sched.Explore(t, sched.Config{MaxPreempt: P, MaxDev: D, Deadline: deadline, Shard: shard, NShards: n, DelayBound: sc.Delay}, c06Body(sc, false), func(x *sched.Exec) {
 			rep.Eval(1)
 			_, dev := x.NonDefault()
 			rep.Outcome(sc.Name+fmt.Sprint(x.Notes), dev > 0)
